@@ -198,6 +198,18 @@ class FsMixin:
     ZK_KEYS = {'zk_exists': (('$zk.exists', 0), z3.BoolSort()), 'zk_owner': (('$zk.owner', 0), I),
                'zk_content': (('$zk.content', 0), I)}
 
+    def zk_env_step(self, st):
+        """Between two ZooKeeper calls of one request any node may go away (its owner deleted it, or its session
+        expired); nothing else is assumed to change.  Applied before every primitive whose contract lists 'zk_env'."""
+        key, rng = self.ZK_KEYS['zk_exists']
+        srt = z3.ArraySort(z3.StringSort(), rng)
+        cur = self.H.get(st.heap, key, srt)
+        new = z3.Const(fresh_name('zkenv'), srt)
+        p = z3.String(fresh_name('p'))
+        st.assume(z3.ForAll([p], z3.Implies(z3.Select(new, p), z3.Select(z3.Select(cur, 0), p)),
+                            patterns=[z3.Select(new, p)]))
+        st.heap[key] = z3.Store(cur, 0, new)
+
     def zk_spec(self, st, name, args):
         key, rng = self.ZK_KEYS[name]
         arr = z3.Select(self.H.get(st.heap, key, z3.ArraySort(z3.StringSort(), rng)), 0)
